@@ -126,8 +126,12 @@ def build_driver():
     return sha_file(DRIVER_BIN).hexdigest()
 
 
+FACTS_TAG = os.environ.get("VERIF_FACTS_TAG", "")
+
+
 def facts_dir(config):
-    return os.path.join(CACHE, "facts", config)
+    # a tag separates the facts of an alternative source tree (VERIF_REPO) from those of /repo
+    return os.path.join(CACHE, "facts", (FACTS_TAG + "-" if FACTS_TAG else "") + config)
 
 
 def _remove_fingerprints(pkgs):
